@@ -128,6 +128,14 @@ def check(prop, tier, seed):
     with C.Lock():
         model_status = C.regen_model()
         proof = C.prove(prop)
+        # a module of the model that the property's theorems are about could not be regenerated at all
+        # (the source does not parse): the theorems were checked against the committed model, not the code
+        stale = [m for m in (C.gen_deps(prop) or []) if model_status.get(m, {}).get("status") in ("golden-fallback", "absent")]
+        if proof["ok"] and stale:
+            proof["ok"] = False
+            proof["error"] = "the model module(s) %s could not be regenerated from the working tree (%s): the theorems were " \
+                             "checked against the committed model only" % (", ".join(stale), "; ".join(
+                                 str(model_status[m].get("reason", ""))[:200] for m in stale))
         mons, corrs, herr, notes = [], [], [], []
         evals, distinct, samples, dist, rules = 0, 0, [], {}, []
         if "cast" in fam:
